@@ -53,9 +53,10 @@ var props = map[string]propCfg{
 		Bounded: []func(*run){boundedExternals("TestStrings", "TestFmtFragment")},
 		Decided: []string{
 			"printer half: FTypeToGo and its helpers (funcTypeToGo, fSliceToGo, fTupleToGo, fpToGo, recordTypeToGo, fUnionToGo, tArgsToGo, fargs, freturn) equal the documented type mapping go_type (specs/types.spec) for every FType value",
+			"forward-declaration retry (transTRecurse): the translation is applied at least once, each application feeds on the previous result, the value returned is the last result and contains no placeholder; the recursion terminates (variant 1001 - count)",
 			"parser half: every (state, FType) pair returned by parseType / parseTypeArrows / parseElemType / parseTermType / parseAtomType is a derivation of the documented grammar TYPE = ELEM ('->' ELEM)*, ELEM = TERM ('*' TERM)*, TERM = '[' ']' TERM | ATOM, ATOM = '(' ')' | '(' TYPE ')' | base name (specs/grammar.spec, Horn clauses over uninterpreted relations): [] binds tighter than *, * tighter than ->, one element is the element itself, several are a tuple / a function type over all of them, parentheses only group, () is unit, base names map to their base types; for token streams of any length and nesting depth",
 		},
-		NotDecided:   []string{"named types: WHICH FType a user / external type name denotes (the type factory stored in the scope is a function value: calling it is modelled as returning anything) is not decided - the grammar decides only the tokens a named atom spans (FULLNAME, then '<' TYPE (',' TYPE)* '>' only if the name resolves to a type factory) and the argument list handed to the factory; the bounded enumeration (depth 2, 3 syntactic positions, incl. generic names) covers the rest, labelled bounded", "forward-declaration placeholders (transTRecurse) and generic user types", "that the five syntactic positions all call parseType (read from the call sites; the bounded enumeration exercises three of them)"},
+		NotDecided:   []string{"named types: WHICH FType a user / external type name denotes (the type factory stored in the scope is a function value: calling it is modelled as returning anything) is not decided - the grammar decides only the tokens a named atom spans (FULLNAME, then '<' TYPE (',' TYPE)* '>' only if the name resolves to a type factory) and the argument list handed to the factory; the bounded enumeration (depth 2, 3 syntactic positions, incl. generic names) covers the rest, labelled bounded", "generic user types (GenRecordType / GenUnionType instantiation) and the resolution pass that replaces forward-declaration placeholders (transTVByTDCtx, resolveFwrdDecl) beyond transTRecurse itself", "that the five syntactic positions all call parseType (read from the call sites; the bounded enumeration exercises three of them)"},
 		BoundedQuick: []func(*run){boundedC15Parser},
 		Scans:        []func(*run){glueLemmas("join")},
 	},
@@ -101,9 +102,10 @@ var props = map[string]propCfg{
 		Scans:      []func(*run){scanBinOpTable, scanBinOpCallSites, scanNotOperand},
 	},
 	"C05": {
-		Modules: []string{"fc"},
-		Bounded: []func(*run){boundedExternals("TestBufferAndMap")},
+		Modules: []string{"fc", "pkg/sys"},
+		Bounded: []func(*run){boundedExternals("TestBufferAndMap", "TestFiles")},
 		Decided: []string{
+			"the output file is a function of the text handed to sys.WriteFile alone: after a successful write the file's content is exactly that text (no remainder of an earlier file), after a failed one nothing changed",
 			"closed-world scan: fc and pkg/* contain no goroutines, select, time, math/rand, environment reads, %p or unsafe, and every range over a map and every call of dict.Keys / Values / KVs is one of the listed consumer sites",
 			"each consumer of a dictionary enumeration has an order-free postcondition that determines its observable result: exaustiveCheck (accept/reject by the C09 iff), eqsUnion (exactly the union of the two key sets), eqsItems / rsRegisterNewEI (every member registered to the same info, nothing else changed), scLookupRecFacCur (the matching factory - under the carve-out of known finding F8)",
 			"the dict functions themselves: Keys / Values / KVs return each entry exactly once (order unspecified)",
